@@ -1,0 +1,238 @@
+//go:build verif
+
+// Contracts for the consumer side of nsqd, part 2: the consumer commands of protocol_v2.go
+// (RDY, FIN, REQ, TOUCH, CLS, NOP, getMessageID, Exec) - C03, C02, C09. Comment-only file.
+//
+// INTEGRATION NOTES
+//  * the limits are named through curOpts(n) (the value returned by getOpts), declared next to the
+//    getOpts contract in zz_contracts_channel_verif.go of the main tree;
+//  * the main tree meanwhile has its own contracts for enforceTLSPolicy and (*protocolV2).CheckAuth
+//    (zz_contracts_auth_verif.go) and for (*Channel).FinishMessage / TouchMessage: drop the items marked
+//    "DROP AT INTEGRATION" below and move the `ghost` declarations + `onreturn` lines of the two channel
+//    stubs onto the real contracts (onreturn is spec-only, nothing new to prove there). See NOTES.md.
+
+package nsqd
+
+//@ pred fatalErr(err error, code string) := dyntype(err) == typetag("*protocol.FatalClientErr") && unbox(err, "*protocol.FatalClientErr").Code == code
+//@ pred clientErr(err error, code string) := dyntype(err) == typetag("*protocol.ClientErr") && unbox(err, "*protocol.ClientErr").Code == code
+
+// Decimal value / digit test of one command parameter.
+//@ fn decOf(b []byte) int := dec(arr(b), off(b), len(b))
+//@ pred allDigits(b []byte) := digits(b, len(b))
+
+// dec depends only on the digits it reads (extensionality). The engine creates one sequence view per
+// syntactic occurrence of arr(s); the callee's dec(arr(b), ..) at the call site and dec(arr(params[i]), ..)
+// in a caller's clause are therefore different terms over pointwise-equal sequences. Proved by
+// induction on n: base and step are lemma obligations, the quantified statement is then an axiom.
+//@ pred sameDigits(a seq[byte], b seq[byte], off int, n int) := forall k int :: {a[off+k]} 0 <= k && k < n ==> a[off+k] == b[off+k]
+//@ lemma dec_ext_base: forall a seq[byte], b seq[byte], off int :: dec(a, off, 0) == dec(b, off, 0)
+//@   props C03 C09
+//@ lemma dec_ext_step: forall a seq[byte], b seq[byte], off int, n int ::
+//@      n >= 0 && sameDigits(a, b, off, n+1) && (sameDigits(a, b, off, n) ==> dec(a, off, n) == dec(b, off, n)) ==> dec(a, off, n+1) == dec(b, off, n+1)
+//@   props C03 C09
+//@ axiom[optin] dec_ext: forall a seq[byte], b seq[byte], off int, n int :: {dec(a, off, n), dec(b, off, n)}
+//@      sameDigits(a, b, off, n) ==> dec(a, off, n) == dec(b, off, n)
+
+// cmdHandled counts the command handlers that ran (every handler of protocolV2 bumps it on return);
+// Exec uses it to say: a command that no handler took is refused with a fatal E_INVALID.
+//@ ghost cmdHandled int
+
+// ---- RDY ------------------------------------------------------------------------------------
+// v is an acceptable RDY value. (The last conjunct is the typing fact MaxRdyCount <= MaxInt64: the engine
+// assumes type ranges for values loaded by the code, not for fields read only by the specification.)
+//@ pred rdyInRange(p *protocolV2, v int) := 0 <= v && v <= curOpts(p.nsqd).MaxRdyCount && v <= 9223372036854775807
+//@ func (p *protocolV2) RDY(client *clientV2, params [][]byte) ([]byte, error)
+//@   onreturn cmdHandled := cmdHandled + 1
+//@   props C03 C09
+//@   requires p != nil && p.nsqd != nil && client != nil
+//@   ensures[closing-ignored] old(client.State) == stateClosing ==> result1 == nil && client.ReadyCount == old(client.ReadyCount)
+//@   ensures[state-check] old(client.State) != stateClosing && old(client.State) != stateSubscribed ==> fatalErr(result1, "E_INVALID")
+//@   ensures[default-one] old(client.State) == stateSubscribed && len(params) <= 1 ==> (1 <= curOpts(p.nsqd).MaxRdyCount ==> result1 == nil && client.ReadyCount == 1) && (1 > curOpts(p.nsqd).MaxRdyCount ==> fatalErr(result1, "E_INVALID"))
+//@   ensures[accepted-in-range; uses dec_ext] old(client.State) == stateSubscribed && len(params) > 1 && allDigits(params[1]) && rdyInRange(p, decOf(params[1])) ==> result1 == nil && client.ReadyCount == decOf(params[1])
+//@   ensures[refused-out-of-range; uses dec_ext] old(client.State) == stateSubscribed && len(params) > 1 && !(allDigits(params[1]) && rdyInRange(p, decOf(params[1]))) ==> fatalErr(result1, "E_INVALID")
+//@   ensures[refused-unchanged] result1 != nil ==> client.ReadyCount == old(client.ReadyCount)
+//@   ensures[errors-fatal-invalid] result1 != nil ==> fatalErr(result1, "E_INVALID")
+//@   ensures[rdy-within-limits] result1 == nil && old(client.State) == stateSubscribed ==> 0 <= client.ReadyCount && client.ReadyCount <= curOpts(p.nsqd).MaxRdyCount
+//@   modifies client.ReadyCount
+
+// ---- message ids ----------------------------------------------------------------------------
+// The id is the 16 bytes of the parameter (a view of them, no copy).
+//@ func getMessageID(p []byte) (*MessageID, error)
+//@   props C02 C09
+//@   ensures[wrong-length] len(p) != 16 ==> result1 != nil && result0 == nil
+//@   ensures[ok] len(p) == 16 ==> result1 == nil && result0 != nil
+//@   modifies
+
+// ---- STUBS for the channel side (TRUSTED, to be replaced by the real contracts of
+// Channel.FinishMessage / RequeueMessage / TouchMessage written in parallel for
+// zz_contracts_channel_verif.go). They state only: which state the call may change (never a
+// connection's counters) and ghost records of what was passed down and what came back.
+//@ ghost finCalls int
+//@ ghost finChan *Channel
+//@ ghost finClient int64
+//@ ghost finID MessageID
+//@ ghost finErr error
+
+//@ ghost reqCalls int
+//@ ghost reqChan *Channel
+//@ ghost reqClient int64
+//@ ghost reqID MessageID
+//@ ghost reqTimeout int
+//@ ghost reqErr error
+//@ func (c *Channel) RequeueMessage(clientID int64, id MessageID, timeout time.Duration) error
+//@   trusted
+//@   props C02
+//@   requires c != nil
+//@   modifies c.inFlightMessages, c.inFlightPQ, mapstore(map[MessageID]*Message), elems(*Message), Message.index, deref(inFlightPqueue), Channel.requeueCount, Channel.messageCount, c.deferredMessages, c.deferredPQ
+//@   onreturn reqCalls := reqCalls + 1
+//@   onreturn reqChan := c
+//@   onreturn reqClient := clientID
+//@   onreturn reqID := id
+//@   onreturn reqTimeout := timeout
+//@   onreturn reqErr := result
+
+//@ ghost touchCalls int
+//@ ghost touchChan *Channel
+//@ ghost touchClient int64
+//@ ghost touchID MessageID
+//@ ghost touchTimeout int
+//@ ghost touchErr error
+
+// A connection in state subscribed or closing has its channel (SUB stores both before it returns;
+// commands of one connection are executed one after the other by IOLoop).
+//@ pred consuming(client *clientV2) := client.State == stateSubscribed || client.State == stateClosing
+//@ pred hasChannel(client *clientV2) := consuming(client) ==> client.Channel != nil
+
+// ---- FIN ------------------------------------------------------------------------------------
+//@ func (p *protocolV2) FIN(client *clientV2, params [][]byte) ([]byte, error)
+//@   onreturn cmdHandled := cmdHandled + 1
+//@   props C02 C03 C09
+//@   requires p != nil && p.nsqd != nil && client != nil
+//@   requires[subscribed-has-channel] hasChannel(client)
+//@   ensures[state-check] !old(consuming(client)) ==> fatalErr(result1, "E_INVALID") && finCalls == old(finCalls)
+//@   ensures[param-count] len(params) < 2 ==> fatalErr(result1, "E_INVALID") && finCalls == old(finCalls)
+//@   ensures[bad-id] len(params) >= 2 && len(params[1]) != 16 ==> fatalErr(result1, "E_INVALID") && finCalls == old(finCalls)
+//@   ensures[passed-down-once] old(consuming(client)) && len(params) >= 2 && len(params[1]) == 16 ==> finCalls == old(finCalls) + 1
+//@   ensures[passed-down-chan] finCalls != old(finCalls) ==> finChan == client.Channel
+//@   ensures[passed-down-client] finCalls != old(finCalls) ==> finClient == client.ID
+//@   ensures[channel-refused] finCalls == old(finCalls) + 1 && finErr != nil ==> clientErr(result1, "E_FIN_FAILED")
+//@   ensures[channel-accepted] finCalls == old(finCalls) + 1 && finErr == nil ==> result1 == nil && client.FinishCount == wrapU64(old(client.FinishCount) + 1) && client.InFlightCount == wrapI64(old(client.InFlightCount) - 1)
+//@   ensures[failed-counters-untouched] result1 != nil ==> client.FinishCount == old(client.FinishCount) && client.InFlightCount == old(client.InFlightCount)
+//@   ensures[errors] result1 != nil ==> fatalErr(result1, "E_INVALID") || clientErr(result1, "E_FIN_FAILED")
+//@   modifies client.FinishCount, client.InFlightCount, Channel.inFlightMessages, Channel.inFlightPQ, mapstore(map[MessageID]*Message), elems(*Message), Message.index, deref(inFlightPqueue), finCalls, finChan, finClient, finID, finErr, lastPopped
+
+// ---- REQ ------------------------------------------------------------------------------------
+// reqMs(params): the number of milliseconds written in the command; the delay handed to the channel must
+// be min(reqMs * 1ms, max-req-timeout) in mathematical integers.
+//@ pred reqParsable(params [][]byte) := len(params) >= 3 && len(params[1]) == 16 && allDigits(params[2]) && decOf(params[2]) < 18446744073709551616
+//@ func (p *protocolV2) REQ(client *clientV2, params [][]byte) ([]byte, error)
+//@   onreturn cmdHandled := cmdHandled + 1
+//@   props C02 C03 C09
+//@   requires p != nil && p.nsqd != nil && client != nil
+//@   requires[subscribed-has-channel] hasChannel(client)
+//@   ensures[state-check] !old(consuming(client)) ==> fatalErr(result1, "E_INVALID") && reqCalls == old(reqCalls)
+//@   ensures[param-count] len(params) < 3 ==> fatalErr(result1, "E_INVALID") && reqCalls == old(reqCalls)
+//@   ensures[bad-id] len(params) >= 3 && len(params[1]) != 16 ==> fatalErr(result1, "E_INVALID") && reqCalls == old(reqCalls)
+//@   ensures[bad-timeout; uses dec_ext] len(params) >= 3 && !(allDigits(params[2]) && decOf(params[2]) < 18446744073709551616) ==> fatalErr(result1, "E_INVALID") && reqCalls == old(reqCalls)
+//@   ensures[passed-down-once; uses dec_ext] old(consuming(client)) && reqParsable(params) ==> reqCalls == old(reqCalls) + 1
+//@   ensures[passed-down-chan] reqCalls != old(reqCalls) ==> reqChan == client.Channel
+//@   ensures[passed-down-client] reqCalls != old(reqCalls) ==> reqClient == client.ID
+//@   ensures[delay-no-overflow; uses dec_ext] reqCalls != old(reqCalls) && curOpts(p.nsqd).MaxReqTimeout >= 0 && decOf(params[2]) * 1000000 <= 9223372036854775807 ==> reqTimeout == min(decOf(params[2]) * 1000000, curOpts(p.nsqd).MaxReqTimeout)
+//@   ensures[delay-bounds] reqCalls != old(reqCalls) && curOpts(p.nsqd).MaxReqTimeout >= 0 ==> 0 <= reqTimeout && reqTimeout <= curOpts(p.nsqd).MaxReqTimeout
+//@   ensures[channel-refused] reqCalls == old(reqCalls) + 1 && reqErr != nil ==> clientErr(result1, "E_REQ_FAILED")
+//@   ensures[channel-accepted] reqCalls == old(reqCalls) + 1 && reqErr == nil ==> result1 == nil && client.RequeueCount == wrapU64(old(client.RequeueCount) + 1) && client.InFlightCount == wrapI64(old(client.InFlightCount) - 1)
+//@   ensures[failed-counters-untouched] result1 != nil ==> client.RequeueCount == old(client.RequeueCount) && client.InFlightCount == old(client.InFlightCount)
+//@   ensures[errors] result1 != nil ==> fatalErr(result1, "E_INVALID") || clientErr(result1, "E_REQ_FAILED")
+// [delay] is stated last: the engine assumes earlier clauses while proving later ones, and this one
+// FAILS on the current code (genuine defect, see NOTES: the multiplication by 1ms wraps before the clamp).
+//@   ensures[delay; uses dec_ext] reqCalls != old(reqCalls) && curOpts(p.nsqd).MaxReqTimeout >= 0 ==> reqTimeout == min(decOf(params[2]) * 1000000, curOpts(p.nsqd).MaxReqTimeout)
+//@   modifies client.RequeueCount, client.InFlightCount, Channel.inFlightMessages, Channel.inFlightPQ, mapstore(map[MessageID]*Message), elems(*Message), Message.index, deref(inFlightPqueue), Channel.requeueCount, Channel.messageCount, Channel.deferredMessages, Channel.deferredPQ, reqCalls, reqChan, reqClient, reqID, reqTimeout, reqErr
+
+// ---- TOUCH ----------------------------------------------------------------------------------
+//@ func (p *protocolV2) TOUCH(client *clientV2, params [][]byte) ([]byte, error)
+//@   onreturn cmdHandled := cmdHandled + 1
+//@   props C02 C09
+//@   requires p != nil && p.nsqd != nil && client != nil
+//@   requires[subscribed-has-channel] hasChannel(client)
+//@   ensures[state-check] !old(consuming(client)) ==> fatalErr(result1, "E_INVALID") && touchCalls == old(touchCalls)
+//@   ensures[param-count] len(params) < 2 ==> fatalErr(result1, "E_INVALID") && touchCalls == old(touchCalls)
+//@   ensures[bad-id] len(params) >= 2 && len(params[1]) != 16 ==> fatalErr(result1, "E_INVALID") && touchCalls == old(touchCalls)
+//@   ensures[passed-down-once] old(consuming(client)) && len(params) >= 2 && len(params[1]) == 16 ==> touchCalls == old(touchCalls) + 1
+//@   ensures[passed-down-chan] touchCalls != old(touchCalls) ==> touchChan == client.Channel
+//@   ensures[passed-down-client] touchCalls != old(touchCalls) ==> touchClient == client.ID
+//@   ensures[passed-down-timeout] touchCalls != old(touchCalls) ==> touchTimeout == client.MsgTimeout
+//@   ensures[channel-refused] touchCalls == old(touchCalls) + 1 && touchErr != nil ==> clientErr(result1, "E_TOUCH_FAILED")
+//@   ensures[channel-accepted] touchCalls == old(touchCalls) + 1 && touchErr == nil ==> result1 == nil
+//@   ensures[errors] result1 != nil ==> fatalErr(result1, "E_INVALID") || clientErr(result1, "E_TOUCH_FAILED")
+//@   modifies Channel.inFlightMessages, Channel.inFlightPQ, mapstore(map[MessageID]*Message), elems(*Message), Message.index, Message.pri, deref(inFlightPqueue), lastNow, lastPopped, touchCalls, touchChan, touchClient, touchID, touchTimeout, touchErr
+
+// ---- CLS / NOP ------------------------------------------------------------------------------
+//@ func (p *protocolV2) CLS(client *clientV2, params [][]byte) ([]byte, error)
+//@   onreturn cmdHandled := cmdHandled + 1
+//@   props C03 C09
+//@   requires p != nil && client != nil
+//@   ensures[state-check] old(client.State) != stateSubscribed ==> fatalErr(result1, "E_INVALID") && client.ReadyCount == old(client.ReadyCount) && client.State == old(client.State)
+//@   ensures[closed] old(client.State) == stateSubscribed ==> result1 == nil && client.ReadyCount == 0 && client.State == stateClosing
+//@   ensures[close-wait] result1 == nil ==> len(result0) == 10
+//@   ensures[errors] result1 != nil ==> fatalErr(result1, "E_INVALID")
+//@   modifies client.ReadyCount, client.State, elems(byte)
+
+//@ func (p *protocolV2) NOP(client *clientV2, params [][]byte) ([]byte, error)
+//@   onreturn cmdHandled := cmdHandled + 1
+//@   props C09 C03
+//@   ensures[nothing] result0 == nil && result1 == nil
+//@   modifies
+
+// ---- Exec -----------------------------------------------------------------------------------
+//@ pred typedErr(err error) := dyntype(err) == typetag("*protocol.FatalClientErr") || dyntype(err) == typetag("*protocol.ClientErr")
+
+// DROP AT INTEGRATION (duplicate of zz_contracts_auth_verif.go; Exec needs only its [fatal]/[exact] clauses)
+
+// DROP AT INTEGRATION (duplicate of zz_contracts_auth_verif.go, whose [codes] clause implies this one)
+
+// STUBS (TRUSTED) for the handlers outside area A (producer side, IDENTIFY/AUTH/SUB): only the error
+// discipline needed by Exec - every error they return is built by protocol.NewFatalClientErr /
+// protocol.NewClientErr (checked by reading: their only pass-through errors come from CheckAuth, proved
+// above, and readMPUB, whose returns are all NewFatalClientErr). To be replaced by their real contracts.
+//@ ghost identifyCalls int
+//@ func (p *protocolV2) IDENTIFY(client *clientV2, params [][]byte) ([]byte, error)
+//@   trusted
+//@   props C09
+//@   ensures[errors] result1 != nil ==> typedErr(result1)
+//@   onreturn cmdHandled := cmdHandled + 1
+//@   onreturn identifyCalls := identifyCalls + 1
+//@ func (p *protocolV2) AUTH(client *clientV2, params [][]byte) ([]byte, error)
+//@   trusted
+//@   props C09
+//@   ensures[errors] result1 != nil ==> typedErr(result1)
+//@   onreturn cmdHandled := cmdHandled + 1
+//@ func (p *protocolV2) SUB(client *clientV2, params [][]byte) ([]byte, error)
+//@   trusted
+//@   props C09
+//@   ensures[errors] result1 != nil ==> typedErr(result1)
+//@   onreturn cmdHandled := cmdHandled + 1
+//@ func (p *protocolV2) PUB(client *clientV2, params [][]byte) ([]byte, error)
+//@   trusted
+//@   props C09
+//@   ensures[errors] result1 != nil ==> typedErr(result1)
+//@   onreturn cmdHandled := cmdHandled + 1
+//@ func (p *protocolV2) MPUB(client *clientV2, params [][]byte) ([]byte, error)
+//@   trusted
+//@   props C09
+//@   ensures[errors] result1 != nil ==> typedErr(result1)
+//@   onreturn cmdHandled := cmdHandled + 1
+//@ func (p *protocolV2) DPUB(client *clientV2, params [][]byte) ([]byte, error)
+//@   trusted
+//@   props C09
+//@   ensures[errors] result1 != nil ==> typedErr(result1)
+//@   onreturn cmdHandled := cmdHandled + 1
+
+// IOLoop calls Exec only with at least the command word (bytes.Split never returns an empty slice).
+//@ func (p *protocolV2) Exec(client *clientV2, params [][]byte) ([]byte, error)
+//@   props C09 C03 C02
+//@   requires p != nil && p.nsqd != nil && client != nil && len(params) >= 1
+//@   requires[subscribed-has-channel] hasChannel(client)
+//@   ensures[errors-typed] result1 != nil ==> typedErr(result1)
+//@   ensures[unknown-command] cmdHandled == old(cmdHandled) ==> fatalErr(result1, "E_INVALID")
+//@   ensures[tls-required] curOpts(p.nsqd).TLSRequired != TLSNotRequired && old(client.TLS) != 1 && identifyCalls == old(identifyCalls) ==> fatalErr(result1, "E_INVALID") && cmdHandled == old(cmdHandled)
+//@   ensures[one-handler] cmdHandled == old(cmdHandled) || cmdHandled == old(cmdHandled) + 1
